@@ -28,6 +28,26 @@ func verifManyValidations(n int) string {
 var verifC06Profiles = append(verifC06ProfilesBase, verifManyValidations(12))
 
 var verifC06ProfilesBase = []string{
+	// prefix names that contain dots, one a dotted extension of the other, and names under both: whatever
+	// the expander makes of them (today: the text before the first dot is not a prefix, an error), it
+	// makes the same of them every time
+	`profile: P7
+prefixes:
+  ex.v2: http://example.org/v2#
+  ex.v2.beta: http://example.org/v2/beta#
+  ex.v2.beta.rc: http://example.org/v2/beta/rc#
+violation:
+  - v1
+validations:
+  v1:
+    message: "{{ex.v2.beta.rc.name}}"
+    targetClass: ex.v2.beta.Thing
+    propertyConstraints:
+      ex.v2.beta.rc.name:
+        minCount: 1
+      ex.v2.beta.size / ex.v2.unit:
+        in: [a, b]
+`,
 	// three quantified constraints under one propertyConstraints: fresh variables are allocated in key order
 	`profile: P1
 prefixes:
